@@ -39,11 +39,11 @@ def to_ds(spec):
     return svc.simple_ds(**spec)
 
 
-def scp_case(value):
+def scp_case(value, lazy=False):
     service_name, sop, ts_i, max_pdu, query, matches, msg_id, pc_id = value
     from pynetdicom2 import sopclass, statuses, dimsemessages
     case = {'side': 'scp', 'service': service_name, 'sop': sop, 'ts': ts_i, 'max_pdu': max_pdu, 'query': query,
-            'matches': matches, 'msg_id': msg_id, 'pc_id': pc_id}
+            'matches': matches, 'msg_id': msg_id, 'pc_id': pc_id, 'lazy': lazy}
     ts = TSS[ts_i]
     seen = []
 
@@ -55,7 +55,7 @@ def scp_case(value):
     req = {0x0002: sop, 0x0100: 0x0020, 0x0110: msg_id, 0x0700: 0}
     try:
         acc, fac, exc = fd.run_acceptor(ae, [svc.primary_plan([(pc_id, sop)], [(req, svc.enc_ds(to_ds(query), ts), pc_id)],
-                                                              ts=ts, max_len=max_pdu)])
+                                                              ts=ts, max_len=max_pdu)], lazy=lazy)
     finally:
         ae.server_close()
     if exc is not None:
@@ -187,6 +187,7 @@ def shard(ctx, job):
 
     def scp(value):
         multi = scp_case(value)
+        scp_case(value, lazy=True)        # same case with a slow provider thread (messages encoded late)
         ctx.case(('scp', value), nontrivial(value[5]) or multi > 0,
                  labels=['scp', 'svc=' + value[0], 'matches=%d' % len(value[5]), 'multi-fragment' if multi else 'single'],
                  sample={'side': 'scp', 'service': value[0], 'ts': TSS[value[2]], 'max_pdu': value[3], 'matches': value[5][:3]})
@@ -218,6 +219,6 @@ def replay(case):
     warnings.simplefilter('ignore')
     m = [(a, b) for a, b in case['matches']]
     if case['side'] == 'scp':
-        scp_case((case['service'], case['sop'], case['ts'], case['max_pdu'], case['query'], m, case['msg_id'], case['pc_id']))
+        scp_case((case['service'], case['sop'], case['ts'], case['max_pdu'], case['query'], m, case['msg_id'], case['pc_id']), case.get('lazy', False))
     else:
         scu_case((case['service'], case['sop'], case['ts'], case['query'], m, case['final'], case['msg_id'], case['via']))
